@@ -399,7 +399,35 @@ impl<'a, 'ctx> Conv<'a, 'ctx> {
 // ---------------------------------------------------------------------------------------------
 // the pipeline for one program
 
-struct Case { term: String, fails: Vec<(usize, String)>, limits: u64, panics: u64, saw_predec: bool, saw_predec_gt: bool }
+/// Rewrite constructor names to the monomorphic aliases of Corr/C06.v (`mBCons : stmt IL -> block IL
+/// -> block IL`, ...): the terms elaborate several times faster without implicit-argument inference.
+fn mono(term: &str) -> String {
+    let mut s = term.to_string();
+    for n in ["ASimple", "ADecl", "SCondBreak", "SCond", "SWhile", "SDoWhile", "STimes", "CElif", "FUser", "CExpr", "FSet"] {
+        s = s.replace(&format!("@{} IL", n), &format!("m{}", n));
+    }
+    // longer names first where one is a prefix of another
+    for n in ["BCons", "BNil", "SAtom", "ANop", "ATime", "SBlock", "SBreak", "SLoop", "CEnd", "CElse", "FAtom", "FLabel", "FGoto",
+              "FCondGoto", "FScopeEndTemp", "FScopeEnd", "FDeclTemp", "FTemp", "CIsZero", "CPredecGt", "CPredec"] {
+        let mut out = String::with_capacity(s.len() + 64);
+        let bytes = s.as_bytes();
+        let mut i = 0;
+        while i < s.len() {
+            if s[i..].starts_with(n) {
+                let before_ok = i == 0 || !(bytes[i - 1].is_ascii_alphanumeric() || bytes[i - 1] == b'_');
+                let j = i + n.len();
+                let after_ok = j >= s.len() || !(bytes[j].is_ascii_alphanumeric() || bytes[j] == b'_');
+                if before_ok && after_ok { out.push('m'); out.push_str(n); i = j; continue; }
+            }
+            let ch = s[i..].chars().next().unwrap();
+            out.push(ch); i += ch.len_utf8();
+        }
+        s = out;
+    }
+    s
+}
+
+struct Case { term: String, fails: Vec<(usize, String)>, limits: u64, panics: u64, panic_msgs: Vec<String>, saw_predec: bool, saw_predec_gt: bool }
 enum Outcome { Rejected(String), DesugarFailed(String), Done(Case) }
 
 fn pipeline(text: &str, cfg: u32, vals: &[Val]) -> Outcome {
@@ -455,6 +483,7 @@ fn pipeline(text: &str, cfg: u32, vals: &[Val]) -> Outcome {
     let mut runs = vec![];
     let mut fails = vec![];
     let (mut limits, mut panics) = (0u64, 0u64);
+    let mut panic_msgs = vec![];
     for (i, v) in vals.iter().enumerate() {
         let regs = REGS.iter().zip(v.regs.iter()).map(|(r, x)| format!("({}, {})", r, z(*x as i64))).collect::<Vec<_>>().join("; ");
         // The two iteration counters are not comparable.  When exactly one side hit its limit, that side
@@ -468,13 +497,13 @@ fn pipeline(text: &str, cfg: u32, vals: &[Val]) -> Outcome {
         let oa = if after[i] == Obs::Limit && before[i] != Obs::Limit { run_vm(&ast2.0, &*truth.ctx(), v, MAX_ITER_RERUN) } else { after[i].clone() };
         let ob = before[i].clone();
         runs.push(format!("({}, [{}], {}, {})", z(v.t0 as i64), regs, coq_obs(&before[i]), coq_obs(&after[i])));
-        for o in [&before[i], &after[i]] { match o { Obs::Limit => limits += 1, Obs::Panic(_) => panics += 1, _ => {} } }
+        for o in [&before[i], &after[i]] { match o { Obs::Limit => limits += 1, Obs::Panic(m) => { panics += 1; panic_msgs.push(m.chars().take(48).collect()); }, _ => {} } }
         if !obs_same(&ob, &oa) {
             fails.push((i, format!("{} [t0={} regs={:?}]", obs_diff(&ob, &oa), v.t0, v.regs)));
         }
     }
-    let term = format!("KProg {} {} [{}] [{}]", flavour(cfg), p, flat.join("; "), runs.join("; "));
-    Outcome::Done(Case { term, fails, limits, panics, saw_predec, saw_predec_gt })
+    let term = mono(&format!("KProg {} {} [{}] [{}]", flavour(cfg), p, flat.join("; "), runs.join("; ")));
+    Outcome::Done(Case { term, fails, limits, panics, panic_msgs, saw_predec, saw_predec_gt })
 }
 
 // ---------------------------------------------------------------------------------------------
@@ -883,7 +912,7 @@ fn read_annotation(text: &str) -> Option<(String, Vec<Val>)> {
 fn one_line(s: &str) -> String { s.replace("\r\n", " ").replace('\n', " ").replace('\r', " ").replace('\t', " ") }
 
 struct Totals { progs: u64, emitted: u64, rejected: u64, desugar_failed: u64, limits: u64, panics: u64, valuations: u64, oracle_fail_progs: u64, oracle_fail_unflagged: u64,
-                saw_predec: u64, saw_predec_gt: u64, flavour_unexpected: u64, reject_reasons: BTreeMap<String, u64> }
+                saw_predec: u64, saw_predec_gt: u64, flavour_unexpected: u64, reject_reasons: BTreeMap<String, u64>, panic_reasons: BTreeMap<String, u64> }
 
 /// runs the pipeline on an annotated source line and prints the PROG / ORACLE-FAIL lines
 fn process(src: &str, cfg: u32, flags: &str, vals: &[Val], tot: &mut Totals) {
@@ -904,6 +933,7 @@ fn process(src: &str, cfg: u32, flags: &str, vals: &[Val], tot: &mut Totals) {
             tot.emitted += 1;
             tot.limits += case.limits;
             tot.panics += case.panics;
+            for m in &case.panic_msgs { *tot.panic_reasons.entry(m.clone()).or_insert(0) += 1; }
             tot.valuations += vals.len() as u64;
             if case.saw_predec { tot.saw_predec += 1; }
             if case.saw_predec_gt { tot.saw_predec_gt += 1; }
@@ -927,6 +957,7 @@ fn print_stats(tot: &Totals, hist: &BTreeMap<&'static str, u64>, extra: &str) {
     for (k, v) in hist { write!(s, " {}={}", k, v).unwrap(); }
     s.push_str(extra);
     for (k, v) in &tot.reject_reasons { write!(s, " rejected[{}]={}", k.replace(' ', "_"), v).unwrap(); }
+    for (k, v) in &tot.panic_reasons { write!(s, " panic[{}]={}", one_line(k).replace(' ', "_"), v).unwrap(); }
     println!("STATS\t{}", s);
 }
 
@@ -935,7 +966,7 @@ fn main() {
     truth::setup_for_test_harness();
     let mut rng = Rng::new(seed_from_env());
     let mut tot = Totals { progs: 0, emitted: 0, rejected: 0, desugar_failed: 0, limits: 0, panics: 0, valuations: 0, oracle_fail_progs: 0, oracle_fail_unflagged: 0,
-                           saw_predec: 0, saw_predec_gt: 0, flavour_unexpected: 0, reject_reasons: BTreeMap::new() };
+                           saw_predec: 0, saw_predec_gt: 0, flavour_unexpected: 0, reject_reasons: BTreeMap::new(), panic_reasons: BTreeMap::new() };
     let mut hist: BTreeMap<&'static str, u64> = BTreeMap::new();
     // make every histogram key appear even when its count is zero
     for k in ["if", "unless", "elif", "else", "while", "dowhile", "loop", "times_const", "times_reg", "times_clobber", "times_clobber_modified", "times_negative_const",
